@@ -116,8 +116,8 @@ def run(ctx):
     MAP = next(iter(map_names))
     minit = [e for e in sc.events if e.kind == "assign" and "$" + e.name == MAP and not e.loops()]
     ok = bool(minit) and minit[-1].value[0] == "dict" and any(k == ("str", "**") and v == guess for k, v in minit[-1].value[1])
-    first_store = min((e.node.lineno for e in sc.stores(MAP)), default=None)
-    ctx.check(ok and first_store is not None and minit[-1].node.lineno < first_store, "GUARD", f"{cm.qualname} / GUARD / initial_guess merged into the mapping before the search", ctx.where(cm),
+    first_store = min((sc.pos(e) for e in sc.stores(MAP)), default=None)
+    ctx.check(ok and first_store is not None and sc.pos(minit[-1]) < first_store, "GUARD", f"{cm.qualname} / GUARD / initial_guess merged into the mapping before the search", ctx.where(cm),
               "mapping = {**mapping, **initial_guess} precedes every assignment", "the user-supplied pairings are not merged into the mapping before the search")
     stores = [e for e in sc.stores(MAP) if e.sub and e.value != T.NONE]
     nones = [e for e in sc.stores(MAP) if e.sub and e.value == T.NONE]
